@@ -54,6 +54,10 @@ CLAIMED = {
        'refines the reference store (in-place deletion, = DictStorage) for EVERY operation sequence, any number of marking rounds; ids are fresh; '
        'an operation on one id leaves every other record untouched; a removed id stays absent under all later operations (dict, disk, cloud); '
        'the redis representation is modelled faithfully, including the known finding (update after remove recreates the hash), proved on a witness. '
+       'The effect-level model of the disk backend (Model/DiskFS.lean, the one C04 cuts at every point) is proved to refine this store model: '
+       'disk_step_refines / disk_refines_store (after every history of complete DiskStorage operations what a fresh DiskStorage recovers for an id is exactly '
+       'the record the store model holds) and disk_get_is_reference_get (recipients with the delivered rounds replayed, attempt counter and due time '
+       'recovered from the directories = those of the in-place reference store after the same operations; recoverable iff present). '
        'Tied to the code by op-sequence campaigns on the four real backends (real pyaio files, real redis-py against an in-process RESP server, '
        'CloudStorage over a fake object store; DictStorage over plain dicts and over two real shelves, the persistent configuration its documentation names), sequential and with overlapped operations on different ids.',
   ref='6/C15', technique='Lean 4 proof (simulation/refinement between store representations) + differential correspondence vs the four real backends',
